@@ -3,6 +3,7 @@
 #include "cqv.h"
 #include <stdlib.h>
 size_t cqv_any_bytes, cqv_i, cqv_b;
+extern int64_t cqv_calls, cqv_watch, cqv_elem;
 #include "src/encoding/dictionary.c"
 void h_bit_width_for_count(void) {
   uint32_t n = nondet_u32();
@@ -13,4 +14,55 @@ void h_bit_width_for_count(void) {
   __CPROVER_assert(n == 0 || w == 32 || ((uint64_t)(n - 1) >> w) == 0, "every index < n fits in width bits");
   __CPROVER_assert(n <= 2 || ((uint64_t)(n - 1) >> (w - 1)) != 0, "width is minimal");
   CQV_CANARY("returns"); if (w == 32) CQV_CANARY("width 32 reachable"); if (w == 1) CQV_CANARY("width 1 reachable");
+}
+
+/* dict_builder_add (bounded: hash chain of at most 2 entries, value_size <= 8, index array capacity <= 4):
+ * the index stored for the new value is < builder->count afterwards (given every existing entry's index < count),
+ * count grows by at most one, indices_count by exactly one and stays <= capacity.
+ * carquet_buffer_* are recorded-call stubs; memcmp is a contract stub (arbitrary result: found and not-found paths). */
+void h_dict_builder_add(void) {
+  dict_builder_t b;
+  b.num_buckets = nondet_size_t();
+  __CPROVER_assume(b.num_buckets >= 1 && b.num_buckets <= 1024);
+  b.buckets = malloc(b.num_buckets * sizeof(dict_entry_t *));
+  b.count = nondet_size_t();
+  __CPROVER_assume(b.count <= ((size_t)1 << 32) - 2);
+  b.indices_capacity = nondet_size_t(); b.indices_count = nondet_size_t();
+  __CPROVER_assume(b.indices_capacity >= 1 && b.indices_capacity <= 4 && b.indices_count <= b.indices_capacity);
+  b.indices = malloc(b.indices_capacity * sizeof(uint32_t));
+  b.is_variable_length = nondet_bool();
+  __CPROVER_assume(b.buckets != NULL && b.indices != NULL);
+  size_t vs = nondet_size_t();
+  __CPROVER_assume(vs <= 8);
+  uint8_t *value = malloc(vs);
+  __CPROVER_assume(value != NULL);
+  /* the chain of the bucket this value hashes to: 0, 1 or 2 existing entries with index < count */
+  size_t slot = dict_hash(value, vs) % b.num_buckets;
+  dict_entry_t *e1 = malloc(sizeof(*e1)), *e2 = malloc(sizeof(*e2));
+  __CPROVER_assume(e1 != NULL && e2 != NULL);
+  e1->size = nondet_size_t(); e2->size = nondet_size_t();
+  __CPROVER_assume(e1->size <= 8 && e2->size <= 8);
+  e1->data = malloc(e1->size); e2->data = malloc(e2->size);
+  __CPROVER_assume(e1->data != NULL && e2->data != NULL);
+  e1->index = nondet_u32(); e2->index = nondet_u32();
+  __CPROVER_assume(e1->index < b.count && e2->index < b.count);
+  int len = nondet_int();
+  __CPROVER_assume(len >= 0 && len <= 2);
+  e2->next = NULL; e1->next = (len == 2) ? e2 : NULL;
+  b.buckets[slot] = (len == 0) ? NULL : e1;
+  size_t old_count = b.count, old_n = b.indices_count;
+  cqv_calls = 0; cqv_watch = -1; cqv_elem = -1;
+  carquet_status_t st = dict_builder_add(&b, value, vs);
+  if (st == CARQUET_OK) {
+    __CPROVER_assert(b.indices_count == old_n + 1 && b.indices_count <= b.indices_capacity, "one index appended, inside the index array");
+    __CPROVER_assert(b.count == old_count || b.count == old_count + 1, "dictionary grows by at most one entry");
+    __CPROVER_assert(b.indices[old_n] < b.count, "emitted index < dictionary size");
+    __CPROVER_assert(b.count == old_count || (b.indices[old_n] == old_count && b.buckets[slot] != NULL && b.buckets[slot]->index == old_count && b.buckets[slot]->size == vs), "a new entry gets index == old count and heads its chain");
+    __CPROVER_assert(b.count == old_count || cqv_calls == (b.is_variable_length ? 2 : 1), "new value appended to the dictionary page once (length prefix first for BYTE_ARRAY)");
+    CQV_CANARY("add can succeed"); if (b.count == old_count) CQV_CANARY("existing entry found"); else CQV_CANARY("new entry added");
+  } else {
+    __CPROVER_assert(b.count == old_count && b.indices_count == old_n, "failure leaves the builder counts unchanged");
+    CQV_CANARY("add can fail");
+  }
+  CQV_CANARY("returns");
 }
